@@ -15,8 +15,13 @@ class StepTimeout(BaseException):
     """wall-clock cap of one call: the call is unjudged"""
 
 
+EXIT_AFTER = False
+
+
 def capped(seconds, fn):
     def handler(signum, frame):
+        global EXIT_AFTER
+        EXIT_AFTER = True      # objects in flight when the timer fired may be half-updated: fresh process for the next task
         raise StepTimeout()
     old = signal.signal(signal.SIGALRM, handler)
     signal.setitimer(signal.ITIMER_REAL, seconds)
@@ -42,7 +47,7 @@ def run(task):
     out = []
     for pair in task["pairs"]:
         calls = []
-        for mask in task["masks"]:
+        for mask in pair.get("masks", task["masks"]):
             host = pj.json_to_tree(pair["host"], DerivationTree)
             ins = pj.json_to_tree(pair["ins"], DerivationTree)
             rec = {"mask": mask, "res": "ok", "exc": "", "results": []}
